@@ -379,7 +379,7 @@ func declareValue(app *cli.Cli, ci int, c *VContainer, nopt *int, prefix string,
 		return vHolder{func() []interface{} { return one(*p) }, set}
 	case TStrings:
 		d := sh.get(c.Typ, c.Default, func() interface{} {
-			var d []string
+			d := make([]string, 0, len(c.Default)+4) // spare capacity: an append into a shared default would alias
 			for i := range c.Default {
 				d = append(d, def(i).(string))
 			}
@@ -412,7 +412,7 @@ func declareValue(app *cli.Cli, ci int, c *VContainer, nopt *int, prefix string,
 		}, set}
 	case TInts:
 		d := sh.get(c.Typ, c.Default, func() interface{} {
-			var d []int
+			d := make([]int, 0, len(c.Default)+4) // spare capacity: an append into a shared default would alias
 			for i := range c.Default {
 				d = append(d, def(i).(int))
 			}
@@ -445,7 +445,7 @@ func declareValue(app *cli.Cli, ci int, c *VContainer, nopt *int, prefix string,
 		}, set}
 	default:
 		d := sh.get(c.Typ, c.Default, func() interface{} {
-			var d []float64
+			d := make([]float64, 0, len(c.Default)+4) // spare capacity: an append into a shared default would alias
 			for i := range c.Default {
 				d = append(d, def(i).(float64))
 			}
@@ -569,21 +569,34 @@ func CheckValues(prop string, c *ValueCase, st *Stats) (*Violation, *ValueResult
 	var got [][]interface{}
 	var gotSet []bool
 	Begin(prop, "values", c)
-	var rerun func(out2 *Outcome, argv2 []string) [][]interface{}
+	var rerun func(out2 *Outcome, argv2 []string) ([][]interface{}, []bool)
 	WithSwap(&out, func() { got, gotSet, rerun = runValuesInner(&out, c) })
 	defer End()
 	ctx := fmt.Sprintf("spec %q argv %q containers %s", spec, argv, describeContainers(c))
 	if out.Panic != "" || out.Exit != nil {
 		return Violf("Run panicked/exited (%s %s); %s", out.Panic, fmtExit(out.Exit), ctx), res
 	}
+	// which property owns which clause: acceptance and agreement with strconv are C13's, the source of each value C06's,
+	// the SetByUser flags C15's; a check only reports what its own statement says
+	ownsAcceptance := prop == "C13"
+	ownsValues := prop == "C06" || prop == "C13"
+	ownsFlags := prop == "C15"
 	if anyCliErr {
 		if out.Accept || !out.HasErr {
+			if !ownsAcceptance {
+				st.Class("deferred-to-C13")
+				return nil, res
+			}
 			return Violf("a command-line token that strconv rejects must make the invocation a usage error (Action ran=%v, err=%q); %s", out.Accept, out.Err, ctx), res
 		}
 		st.Class("outcome:usage-error-unparsable-token")
 		return nil, res
 	}
 	if !out.Accept || out.HasErr {
+		if !ownsAcceptance {
+			st.Class("deferred-to-C13")
+			return nil, res
+		}
 		return Violf("every command-line token parses with strconv, yet the invocation was rejected (%q); %s", out.Err, ctx), res
 	}
 	res.Accepted = true
@@ -591,8 +604,17 @@ func CheckValues(prop string, c *ValueCase, st *Stats) (*Violation, *ValueResult
 		e := res.Exp[i]
 		vc := &c.Cs[i]
 		what := fmt.Sprintf("container %d (%s %s)", i, kindName(vc), typeNames[vc.Typ])
-		if gotSet[i] != e.byUser {
+		if ownsFlags && gotSet[i] != e.byUser {
 			return Violf("%s: SetByUser=%v but the command line supplied %d value(s); %s", what, gotSet[i], len(vc.Cli), ctx), res
+		}
+		if !ownsValues {
+			st.Class("source:" + e.src)
+			continue
+		}
+		if prop == "C13" && e.src == "default" && !anyEnvToken(vc) {
+			// no token was converted for this container: nothing C13 speaks about
+			st.Class("source:default-without-any-token")
+			continue
 		}
 		if e.f9 {
 			if eqVals(got[i], e.vals) {
@@ -609,12 +631,28 @@ func CheckValues(prop string, c *ValueCase, st *Stats) (*Violation, *ValueResult
 		}
 		st.Class("source:" + e.src)
 	}
-	if c.Second && rerun != nil {
+	if c.Second && rerun != nil && prop == "C15" {
+		// a second command line on the same application object: whatever it supplies a value for must (still) be flagged;
+		// nothing is said about a container flagged by the first command line and not written again
+		argv2 := valueSpecArgv2(c)
+		var out2 Outcome
+		var set2 []bool
+		WithSwap(&out2, func() { _, set2 = rerun(&out2, argv2) })
+		if out2.Panic == "" && out2.Accept && !out2.HasErr {
+			for i := range c.Cs {
+				if len(c.Cs[i].Cli2) > 0 && !set2[i] {
+					return Violf("container %d: SetByUser=false after a second command line %q (same application object, first: %q) that supplies a value for it; spec %q containers %s", i, argv2, argv, spec, describeContainers(c)), res
+				}
+			}
+			st.Class("sequence:second-command-line-on-same-app")
+		}
+	}
+	if c.Second && rerun != nil && prop == "C06" {
 		// a second command line on the same application object: whatever is given again replaces what the variable held
 		argv2 := valueSpecArgv2(c)
 		var out2 Outcome
 		var got2 [][]interface{}
-		WithSwap(&out2, func() { got2 = rerun(&out2, argv2) })
+		WithSwap(&out2, func() { got2, _ = rerun(&out2, argv2) })
 		ctx2 := fmt.Sprintf("second command line %q on the same application object (first: %q); spec %q containers %s", argv2, argv, spec, describeContainers(c))
 		if out2.Panic != "" || !out2.Accept || out2.HasErr {
 			return Violf("the second command line is valid (every token converts), yet: Action ran=%v err=%q panic=%q; %s", out2.Accept, out2.Err, out2.Panic, ctx2), res
@@ -635,6 +673,16 @@ func CheckValues(prop string, c *ValueCase, st *Stats) (*Violation, *ValueResult
 	return nil, res
 }
 
+// anyEnvToken: some listed environment variable of the container holds a non-empty value.
+func anyEnvToken(vc *VContainer) bool {
+	for _, ev := range vc.Env {
+		if ev.Set && ev.Val != "" {
+			return true
+		}
+	}
+	return false
+}
+
 // RunValuesInner builds and runs the app of a value case without touching the package level streams.
 func RunValuesInner(out *Outcome, c *ValueCase) (got [][]interface{}, gotSet []bool) {
 	got, gotSet, _ = runValuesInner(out, c)
@@ -642,7 +690,7 @@ func RunValuesInner(out *Outcome, c *ValueCase) (got [][]interface{}, gotSet []b
 }
 
 // runValuesInner also returns a function that parses another command line with the same application object.
-func runValuesInner(out *Outcome, c *ValueCase) (got [][]interface{}, gotSet []bool, rerun func(out2 *Outcome, argv2 []string) [][]interface{}) {
+func runValuesInner(out *Outcome, c *ValueCase) (got [][]interface{}, gotSet []bool, rerun func(out2 *Outcome, argv2 []string) ([][]interface{}, []bool)) {
 	spec, argv := valueSpecArgv(c)
 	var hs []vHolder
 	app := cli.App("app", "")
@@ -672,11 +720,12 @@ func runValuesInner(out *Outcome, c *ValueCase) (got [][]interface{}, gotSet []b
 	if err := app.Run(append([]string{"app"}, argv...)); err != nil {
 		out.HasErr, out.Err = true, err.Error()
 	}
-	rerun = func(out2 *Outcome, argv2 []string) (got2 [][]interface{}) {
+	rerun = func(out2 *Outcome, argv2 []string) (got2 [][]interface{}, set2 []bool) {
 		app.Action = func() {
 			out2.Accept = true
 			for _, h := range hs {
 				got2 = append(got2, h.get())
+				set2 = append(set2, *h.set)
 			}
 		}
 		if err := app.Run(append([]string{"app"}, argv2...)); err != nil {
@@ -769,7 +818,7 @@ func describeContainers(c *ValueCase) string {
 var TokPool = []string{"0", "1", "-1", "+5", "007", "42", "9223372036854775807", "9223372036854775808", "-9223372036854775808", "-9223372036854775809",
 	"1e3", "1.5", ".5", "5.", "0x10", "0b1", "0o7", "1_000", "inf", "-Inf", "+Inf", "Infinity", "NaN", "nan", "1e309", "-1e309", "1e-400", "0x1p-2", "1E5",
 	"true", "false", "T", "F", "t", "f", "TRUE", "FALSE", "True", "False", "yes", "no", "tRUE", "1.0", "00", "-0", "+0", "-0.0",
-	" 1", "1 ", "abc", "é", "٣", "1,2", " ", "\t", "0000000000000000000000042", "+00000000000000000000007", "000000000000000000000", "-000000000000000000000000009", "00000000000000000000001.5", "\xff\xfe", "caf\xe9", "\xc3(", "1\x80", "2147483648", "4294967296", "18446744073709551616", "1e", "e1", "--1", "+-1", "0.1e+1", "x"}
+	" 1", "1 ", "abc", "é", "٣", "1,2", " ", "\t", "", "0000000000000000000000042", "+00000000000000000000007", "000000000000000000000", "-000000000000000000000000009", "00000000000000000000001.5", "\xff\xfe", "caf\xe9", "\xc3(", "1\x80", "2147483648", "4294967296", "18446744073709551616", "1e", "e1", "--1", "+-1", "0.1e+1", "x"}
 
 var numericShape = rapid.StringMatching(`[-+]?(0x|0X|0b|0o)?[0-9a-fA-F_]{1,20}(\.[0-9]{0,5})?([eEpP][-+]?[0-9]{1,3})?`)
 
@@ -804,8 +853,12 @@ type ValueGenMode struct {
 }
 
 func usableCliToken(tok string, typ int, isArg bool, form int, writeDD, argDD bool) bool {
-	if tok == "" || strings.ContainsRune(tok, 0) {
+	if strings.ContainsRune(tok, 0) {
 		return false
+	}
+	if tok == "" {
+		// the empty token can only be delivered as a positional or as the separate-form value of an option
+		return isArg || form == 2 || form == 4
 	}
 	if isArg {
 		if tok == "--" || tok == "-h" || tok == "--help" {
@@ -848,7 +901,7 @@ func GenValueCase(t *rapid.T, mode ValueGenMode) *ValueCase {
 	mk := func(isArg bool) VContainer {
 		vc := VContainer{Typ: intn(t, 7, "typ"), IsArg: isArg, UsePtr: chance(t, 1, 3, "useptr")}
 		vc.Prefill = vc.UsePtr && chance(t, 1, 2, "prefill")
-		vc.EnvSep = rapid.SampledFrom([]string{"", "", "", "\t", "\n", "  "}).Draw(t, "envsep")
+		vc.EnvSep = rapid.SampledFrom([]string{"", "", "", "  "}).Draw(t, "envsep") // documented: a space separated list
 		nd := 1
 		if multi(vc.Typ) {
 			nd = rapid.IntRange(0, 2).Draw(t, "ndef")
@@ -879,9 +932,7 @@ func GenValueCase(t *rapid.T, mode ValueGenMode) *ValueCase {
 								p = "" // "1,,2": an empty list element is an (invalid, for numbers) element, not a separator artefact
 							}
 							if chance(t, 1, 3, "pad") {
-								p = " " + p + "\t"
-							} else if chance(t, 1, 8, "unicodepad") {
-								p = "\u00a0" + p + "\u3000" // blanks are whatever strings.TrimSpace calls blank
+								p = " " + p + "\t" // "blanks trimmed": space and tab only, nothing is claimed about other white space
 							}
 							parts = append(parts, p)
 						}
@@ -922,7 +973,7 @@ func GenValueCase(t *rapid.T, mode ValueGenMode) *ValueCase {
 				cv.Tok = genValidToken(t, vc.Typ)
 				if !usableCliToken(cv.Tok, vc.Typ, isArg, cv.Form, c.WriteDD, c.ArgDD) {
 					cv.Form = 0
-					if isArg {
+					if isArg || cv.Tok == "" {
 						cv.Tok = map[int]string{TBool: "true", TString: "s", TInt: "7", TFloat: "7.5"}[elemType(vc.Typ)]
 					}
 				}
@@ -975,7 +1026,7 @@ func GenValueCase(t *rapid.T, mode ValueGenMode) *ValueCase {
 				}
 				if !usableCliToken(cv.Tok, vc.Typ, vc.IsArg, cv.Form, c.WriteDD, c.ArgDD) {
 					cv.Form = 0
-					if vc.IsArg {
+					if vc.IsArg || cv.Tok == "" {
 						cv.Tok = map[int]string{TBool: "true", TString: "s", TInt: "7", TFloat: "7.5"}[elemType(vc.Typ)]
 					}
 				}
